@@ -176,7 +176,7 @@ def run(chk):
         chk.ob("R5 macro contract", "R5|%s|duplicate-check-per-key" % sn, len(dup) == len(vnames) and len(raw_next) == len(checks) and len(ign) == 1, where(vm),
                "%d known keys; %d go through set_if_none/check_is_already_set; %d direct next_value reads (each preceded by a check: %d); IgnoredAny reads: %d" % (len(vnames), len(dup), len(raw_next), len(checks), len(ign)))
         miss = False
-        for b in p.nested(vm.path):
+        for b in p.nested_of(vm):
             if any(names.call_is(t, "Error::missing_field") for bb, t in b.calls()):
                 miss = True
         chk.ob("R5 macro contract", "R5|%s|missing-field" % sn, miss == bool(exp_r), where(vm), "required members raise missing_field: %s" % miss)
@@ -379,22 +379,25 @@ def client_mapping(chk, p, S, tab, R="R7 client mapping", K="R7"):
             N = normal.Normalizer(p, summary.Summaries(p))
             is_ga = flow.await_pred(aws[0])
             ok_e, bad_e = flow.success_edges(p, au, is_ga, T)
-            convs = []
-            for sb in sorted({sb for sb, sc in ok_e + bad_e}):
-                term = N.norm(T.operand(au.term(sb)["op"], sb, "t"))
-                subj = term[1] if term[0] == "discr" else term
-                if isinstance(subj, tuple) and subj and subj[0] == "gamma":
-                    for l, v in subj[2]:
-                        if isinstance(v, tuple) and len(v) == 4 and v[0] == "agg" and v[2] == "Err":
-                            convs.append(dict(v[3]).get("0"))
-                elif is_ga(subj):
-                    convs.append(("errpayload", subj))  # tested directly: the conversion is whatever `?`/the arm applies
+            # conversions implemented in the workspace are kept as calls in these terms (From<StatusCode> for WebauthnError
+            # is the mapping R7 is about, not an identity)
+            T2 = flow.Terms(p, au)
+            T2.conversions = True
 
             def is_conv(x):
-                if not (isinstance(x, tuple) and len(x) == 4 and x[0] == "call" and len(x[2]) == 1 and x[2][0][0] == "errpayload" and is_ga(x[2][0][1])):
-                    return False
-                nm = x[1]
-                return ("WebauthnError" in nm and ("From" in nm or "Into" in nm or nm.endswith("::from") or nm.endswith("::into"))) or (nm in p.bodies and "From<passkey_types::ctap2::error::StatusCode>" in nm and "WebauthnError" in nm)
+                return isinstance(x, tuple) and len(x) == 4 and x[0] == "call" and isinstance(x[1], str) and "StatusCode" in x[1] and "WebauthnError" in x[1] and ("::From<" in x[1] or "::Into<" in x[1]) \
+                    and len(x[2]) == 1 and flow.term_contains(x[2][0], lambda y: isinstance(y, tuple) and len(y) == 2 and y[0] == "errpayload" and is_ga(y[1]))
+            convs = []
+            after_fail = set()
+            for sb, sc in bad_e:
+                after_fail |= au.reachable(sc, removed_edges=ok_e, follow_yield_drop=False)
+            for s_ in flow.outcome_sites(au):
+                if s_["path"] != () or s_["bb"] not in after_fail or s_["kind"] not in ("Err", "residual", "use", "call", "other"):
+                    continue
+                v = N.norm(T2._rvalue(s_["rv"], s_["bb"], s_["idx"], 0) if s_.get("idx") is not None else T2._call(s_["term"], s_["bb"], 0))
+                if not flow.term_contains(v, lambda y: isinstance(y, tuple) and len(y) == 2 and y[0] == "errpayload" and is_ga(y[1])):
+                    continue  # an error that does not come from get_assertion
+                convs.append(v)
             wit = "error of get_assertion leaves as %s" % [flow.term_str(x)[:140] for x in convs]
-            ok = bool(convs) and all(is_conv(x) for x in convs)
+            ok = bool(convs) and all(flow.term_contains(x, is_conv) for x in convs)
         chk.ob(R, K + "|Client::authenticate|uses-conversion", ok, where(au), wit)
